@@ -1,14 +1,13 @@
-\* C11 quick: the engine + stub as written; 3 callers, responses in all orders, header/body separate, one deadline may pass
-\* anywhere (any caller), one stream error (read or write side), one unknown-or-duplicate response.
-\* Every invariant except the strict NoAccessAfterReturn (recorded finding F4: see MC_RpcOoo_f4_quick.cfg); the KF form
-\* tolerates exactly the accesses whose victim returned by the follower-timeout path after a reader had taken its tag.
+\* C11 quick: the engine + stub AS WRITTEN.  3 callers, responses in all orders (header and body separate arrivals), 1 deadline(s) may pass anywhere, 1 stream error(s), 0 unknown-or-duplicate response(s)
+\* Every invariant; NoAccessAfterReturn in its KF form, which tolerates exactly the accesses whose victim returned by the
+\* follower-timeout path after a reader had taken its tag out of the map (recorded finding F4, see MC_RpcOoo_f4_*.cfg).
 SPECIFICATION Spec
 CONSTANTS
   C = {c1, c2, c3}
   Timed = {c1, c2, c3}
   MaxExpire = 1
   MaxErr = 1
-  MaxBogus = 1
+  MaxBogus = 0
   Variant = "asis"
   EarlyResponse = FALSE
 INVARIANTS TypeOK OwnResponse TagsUnique FailureIsolated MapLive OneReader LeaderHandover QueueSane NoAccessAfterReturnKF
